@@ -280,7 +280,7 @@ class Ctx:
         rp = None
         if replay is not None:
             os.makedirs(os.path.join(EVID, "replay"), exist_ok=True)
-            rp = os.path.join(EVID, "replay", "%s-%d.json" % (self.pid, len(self.violations) + 1))
+            rp = os.path.join(EVID, "replay", "%s%s-%d.json" % (self.pid, os.environ.get("VERIF_EVID_SUFFIX", ""), len(self.violations) + 1))
             with open(rp, "w") as fh:
                 json.dump(replay, fh, indent=1, default=str)
         self.violations.append((key, text, rp))
@@ -295,7 +295,7 @@ class Ctx:
             "repo": self.repo_state(), "notes": self.notes,
         }
         os.makedirs(EVID, exist_ok=True)
-        with open(os.path.join(EVID, self.pid + ".json"), "w") as fh:
+        with open(os.path.join(EVID, self.pid + os.environ.get("VERIF_EVID_SUFFIX", "") + ".json"), "w") as fh:
             json.dump(ev, fh, indent=1, default=str)
         (None if os.environ.get("VF_KEEP") else shutil.rmtree(self.scratch, ignore_errors=True))
         for fid, what, key in self.known_hit:
@@ -469,7 +469,7 @@ def go_run_many(ctx, binary, run, envs, timeout=900, unshare=False):
         return [f.result() for f in futs]
 
 
-_REPO_FRAME = re.compile(r"/repo/[^\s:]+\.go:\d+")
+_REPO_FRAME = re.compile(re.escape(REPO) + r"/[^\s:]+\.go:\d+")
 
 
 def code_under_test_frames(text):
